@@ -358,16 +358,19 @@ ev_tick(int d)
 	for (int c = 0; c < NCTX; c++)
 		due[c] = (c == 0 || have_x) && outstanding(c) && ctxs[c]->retry > 0 && retry_at_send[c] > 0 && ctxs[c]->retry_time <= env_now &&
 		    on_list(&sock.retry_queue, ctxs[c]);
+	int sends0 = 0; /* transport sends issued so far (a resent copy shares the message object, so it is counted here, not by note_tx) */
+	for (int p = 0; p < MAXP; p++)
+		sends0 += kpipe[p].sends;
 	env_aio_expire(&sock.retry_aio);
 	kquiesce();
 	note_tx();
 	for (int c = 0; c < NCTX; c++)
 		if (due[c]) {
-			int onpipe = 0;
+			/* it is transmitted again now (a copy went on the wire) or waits in the send queue for a pipe */
+			int sends1 = 0;
 			for (int p = 0; p < MAXP; p++)
-				if (kpipe_up[p] && !pd[p].closed && on_list(&pd[p].contexts, ctxs[c]))
-					onpipe = 1;
-			CHECK(on_list(&sock.send_queue, ctxs[c]) || onpipe, "C12: when the resend time has elapsed the request is queued for (re)transmission");
+				sends1 += kpipe[p].sends;
+			CHECK(on_list(&sock.send_queue, ctxs[c]) || sends1 > sends0, "C12: when the resend time has elapsed the request is queued for (re)transmission");
 			WITNESS("resend due");
 		}
 	monitor();
